@@ -208,6 +208,8 @@ def formal_tok(f) -> str:
 
 def case_line(mode: str, case: dict) -> str:
     fs = case["raw"] if mode == "builder" else case["sig"]
+    if mode == "static":
+        mode = f"staticat:{case['opset']}"  # the converter's promotion depends on the function's default opset (7b0eb49)
     args = list(case["args"])
     if mode == "dynamic":
         # `Opset._prepare_inputs` (the generated opset methods) drops trailing None before the evaluator sees the call
@@ -311,7 +313,11 @@ def static_sources(cases):
             elif a.startswith("t:"):
                 d = a.split(":")[1]
                 params.append(f"x{j}: {d}[2]")
-                call_args.append(f"x{j}")
+                if a.endswith(":0") and case["op"] != "Identity":
+                    # a sibling whose dtype the converter does not know statically: an intermediate value
+                    call_args.append(f"opset{case['opset']}.Identity(x{j})")
+                else:
+                    call_args.append(f"x{j}")
             else:
                 call_args.append(lit_src(dec_lit(a)))
         v = case["opset"]
@@ -357,6 +363,9 @@ def run_static(cases, stats, cast_log, sources=None):
             cls, msg = err[name]
             if "out of bounds" in msg or "OverflowError" in msg or "too large" in msg:
                 results.append("ERR:overflow")
+            elif "CastLike requires opset 15" in msg:
+                results.append("ERR:refused")
+                stats["static_refused_below_opset15"] += 1
             else:
                 results.append(f"REFUSED:{cls}:{msg[:120]}")
                 stats["static_refused"] += 1
@@ -377,14 +386,23 @@ def run_static(cases, stats, cast_log, sources=None):
             in_dtype = {}
             for v in graph.inputs:
                 in_dtype[v.name] = v.dtype.name if v.dtype is not None else None
+            def param_of(val):
+                """The function input a value is (directly, or through the Identity the generator wraps untyped siblings in)."""
+                pr = val.producer()
+                if pr is None:
+                    return val
+                if pr.op_type == "Identity" and pr.inputs[0] is not None and pr.inputs[0].producer() is None:
+                    return pr.inputs[0]
+                return None
+
             outs = []
             for v in target.inputs:
                 if v is None:
                     outs.append(("N",))
                     continue
                 prod = v.producer()
-                if prod is None:
-                    outs.append(("P", in_dtype.get(v.name)))
+                if prod is None or (prod.op_type == "Identity" and case["op"] != "Identity" and param_of(v) is not None):
+                    outs.append(("P", in_dtype.get(param_of(v).name)))
                 elif prod.op_type == "Constant":
                     t = prod.attributes["value"].value
                     arr = t.numpy()
@@ -392,9 +410,9 @@ def run_static(cases, stats, cast_log, sources=None):
                     stats["static_plain_const"] += 1
                 elif prod.op_type == "CastLike" and prod.inputs[0].producer() is not None and prod.inputs[0].producer().op_type == "Constant":
                     t = prod.inputs[0].producer().attributes["value"].value
-                    like = prod.inputs[1]
-                    ld = in_dtype.get(like.name)
-                    if like.producer() is not None or ld is None:
+                    like = param_of(prod.inputs[1])
+                    ld = in_dtype.get(like.name) if like is not None else None
+                    if ld is None:
                         outs.append(("?", "castlike-to-nonparam"))
                         continue
                     arr = t.numpy()
@@ -1698,7 +1716,7 @@ def check_batch(run, drv, cases, stats, rec, cast_log, e2e_every=0):
                 d = same_out(e2e, as_model(bu_res[i]))
                 if d:
                     problems.append((c, "builder", "tie", f"op.{c['op']}(...) end to end feeds {show_out(e2e)}, _cast_inputs alone {show_out(bu_res[i])}: {d}"))
-        if wt and has_mixed_list(c) and "static" in real and not (isinstance(real["static"], str) and real["static"].startswith("REFUSED")) \
+        if wt and has_mixed_list(c) and "static" in real and not (isinstance(real["static"], str) and (real["static"].startswith("REFUSED") or real["static"] == "ERR:refused")) \
                 and classify(c, m["expected"]) is None \
                 and not any((not isinstance(r, str)) and any(o[0] == "?" for o in r) for r in real.values()):
             # lists mixing Python types lie outside `allRepresentable`; the property is judged directly: same operands in all three
@@ -1727,8 +1745,8 @@ def check_batch(run, drv, cases, stats, rec, cast_log, e2e_every=0):
             d = same_out(r, m[fe], stats)
             if d:
                 problems.append((c, fe, "tie", f"impl {show_out(r)} ; model {show_out(m[fe])} : {d}"))
-            # ---- property (the rule), judged on well-typed calls only
-            if wt:
+            # ---- property (the rule), judged on well-typed calls only (a refusal below opset 15 produces no graph: not judged)
+            if wt and not (fe == "static" and r == "ERR:refused"):
                 d = same_out(r, m["expected"])
                 if d:
                     fid = None if representable else classify(c, m["expected"])
@@ -1758,7 +1776,9 @@ CORPUS = [
     ("Add", 18, ["t:INT64:1", "l:b1,i1"]),
     ("Concat", 18, ["l:" + enc_scalar(2.5) + ",i1", "t:FLOAT16:1", "l:i1,b1"]),
     ("Add", 18, ["t:INT64:1", "s:" + enc_scalar(2.5)]),
-    ("Add", 13, ["t:DOUBLE:1", "s:i1"]),                 # D47: CastLike in an opset-13 function
+    ("Add", 13, ["t:DOUBLE:1", "s:i1"]),                 # D47 (fixed by 7b0eb49: Cast below opset 15; must pass now)
+    ("Add", 13, ["t:DOUBLE:0", "s:i1"]),                 # sibling of unknown static dtype below opset 15: refused
+    ("Add", 18, ["t:DOUBLE:0", "s:i1"]),
     ("Mul", 14, ["s:" + enc_scalar(2.5), "t:FLOAT16:1"]),
     ("Add", 18, ["s:i1", "t:FLOAT:0"]),
     ("Where", 18, ["s:b1", "t:FLOAT:1", "t:DOUBLE:1"]),
@@ -1981,7 +2001,7 @@ def main(run: core.Run) -> None:
                 run.known("D10", detail)
         else:
             cache_viol.append((seq, j, k, detail))
-    for fid in ("D10", "D21", "D23", "D47"):
+    for fid in ("D10", "D21", "D23"):
         stats["known_" + fid] = known[fid]
 
     def slim(c):
@@ -2071,7 +2091,7 @@ def main(run: core.Run) -> None:
                 "tail_nonhomogeneous", "tail_toomany", "conflicting_siblings", "arg_tensor_unknown", "arg_none", "arg_list",
                 "has_concrete_typed_formal", "builder_end_to_end", "scope_if_outer", "scope_loop_outer", "scope_if_inner", "scope_top",
                 "history_calls", "session_calls", "session_shared_initializers", "session_err_overflow", "session_err_tooMany",
-                "scopemodel_uses", "scopemodel_castable", "calls_ok", "calls_ERR_missing", "calls_ERR_tooMany", "calls_static", "calls_with_keywords", "calls_placeholder", "attr_castlike", "attr_bool", "attr_bool_default", "attr_int", "attr_float_default", "function_cases",
+                "scopemodel_uses", "scopemodel_castable", "calls_ok", "calls_ERR_missing", "calls_ERR_tooMany", "static_cast", "static_refused_below_opset15", "calls_static", "calls_with_keywords", "calls_placeholder", "attr_castlike", "attr_bool", "attr_bool_default", "attr_int", "attr_float_default", "function_cases",
                 "function_const_value", "cache_hits", "cache_err_overflow", "ort_cast_validated"]
     zero = [k for k in required if not stats[k]]
     run.coverage["required_counters"] = {k: stats[k] for k in required}
